@@ -2,7 +2,7 @@
    Theorems only; proofs are [exact] of lemmas proved elsewhere, or vm_compute witnesses. *)
 From Coq Require Import List ZArith Bool.
 From Verif Require Import Base.Sx Base.GoVal Base.F64 Schema.Ast Schema.Build Schema.Pipeline Schema.Draft4
-  Schema.Classes Schema.PipelineFacts Schema.PipelineTerm Schema.Agreement.
+  Schema.Classes Schema.PipelineFacts Schema.PipelineTerm Schema.Agreement Schema.AgreementDec.
 Import ListNotations.
 Open Scope Z_scope.
 
@@ -105,6 +105,12 @@ Theorem C01_agreement_on_the_clean_fragment_partial :
   exists r, sv_validate OR N opt defs fuel s p q d = Ok r /\ d4 OR N defs fuel s d = Some (r_valid r).
 Proof. exact clean_fragment_agrees. Qed.
 Print Assumptions C01_agreement_on_the_clean_fragment_partial.
+
+(* the fragment is decidable: the procedure the harness evaluates on every case (its count is in the evidence) is sound *)
+Theorem C01_fragment_decision_is_sound : forall fin_b OR n s fuel d,
+  clean_b fin_b OR n s = true -> jd_b fin_b fuel d = true -> clean (finP fin_b) OR n s /\ jd (finP fin_b) d.
+Proof. intros fin_b OR n s fuel d H1 H2. split; [apply clean_b_sound; exact H1 | apply (jd_b_sound fin_b fuel d H2)]. Qed.
+Print Assumptions C01_fragment_decision_is_sound.
 
 (* non-vacuity: numbers read as integers, {"type":"object","required":[50],"properties":{50:{"type":"number","maximum":7}},
    "additionalProperties":{"anyOf":[{"type":"string"},{"items":{"type":"boolean"}}]}} and a matching instance *)
